@@ -445,6 +445,11 @@ func (p *prover) induct(name string, phi *ssa.Phi, bound func(q *prover) Lin, up
 			pred := ph.Block().Preds[i]
 			q := newProver(p.w, p.fn, pred.Instrs[len(pred.Instrs)-1])
 			q.depthSum = p.depthSum + 1
+			// the value arrives along the edge pred → φ's block: when pred branches, the edge's
+			// own condition holds as well (it is not a dominating guard of pred)
+			if ifi, isIf := pred.Instrs[len(pred.Instrs)-1].(*ssa.If); isIf && len(pred.Succs) == 2 && pred.Succs[0] != pred.Succs[1] {
+				q.edgeCond, q.edgePol = ifi.Cond, pred.Succs[0] == ph.Block()
+			}
 			for k := range p.inInd {
 				q.inInd[k] = true
 			}
@@ -1087,6 +1092,9 @@ func (p *prover) proveWith(b *ssa.BasicBlock, extra func(), goals func() []Lin) 
 			p.facts = append(p.facts, p.inv...)
 		}
 		p.addGuards(b)
+		if p.edgeCond != nil {
+			p.addCond(p.edgeCond, p.edgePol, "condition of the incoming edge")
+		}
 		p.applyConds()
 		gs := goals()
 		p.applyConds()
